@@ -6,7 +6,7 @@
     theorems (C02/C12 for [P_glif], C13/C14 for [P_info], C15 for groups, the plist / XML layer
     hypotheses for the plist parts) — for ALL fonts, write options and conforming-writer
     choices.  [toy_ok] shows the laws are satisfiable. *)
-Require Import Norad.Model.GlifSpec Norad.Model.GlifEncode Norad.Proofs.GlifEncodeP Norad.Proofs.GlifRoundtripP.
+Require Import Norad.Model.GlifSpec Norad.Model.GlifEncode Norad.Proofs.GlifEncodeP Norad.Proofs.GlifRoundtripP Norad.Proofs.GlifFullP.
 Require Import Norad.Model.Base Norad.Model.FontRT Norad.Model.FontToy Norad.Model.FontReal
                Norad.Proofs.FontRTP Norad.Proofs.FontToyP Norad.Proofs.FontRealP.
 Open Scope N_scope.
@@ -85,9 +85,10 @@ Proof. eexists. eexists. vm_compute. repeat split; reflexivity. Qed.
 (** ---------- with the REAL part models (glif codec, font info, groups / kerning maps and validator) plugged in (Model/FontReal.v) ----------
     Remaining hypotheses: [codecs_ok K] (the laws of every part other than the glif codec — see
     Props/C01.v, C01_roundtrip_real, for which theorem discharges which), [L1_glif] (the library
-    hypotheses of C02), and in [font_valid] the glyph domain [wf_glyph] (lib-free glyphs). *)
+    hypotheses of C02), and in [font_valid] the glyph domain [wf_glyph] (libs included, outside F3, canonical form) and the
+    font-info domain [wf_sinfo]. *)
 Theorem C05_norad_writes_spec_real : forall pf ff ff3 fi fh (K : codecs),
-  L1_glif pf ff ff3 fh -> codecs_ok K ->
+  L1_glif pf ff ff3 fi fh -> codecs_ok K ->
   forall o (f : font (real_sig pf ff ff3 fi fh K)),
   font_valid (real_sig pf ff ff3 fi fh K) f ->
   exists t, save (real_sig pf ff ff3 fi fh K) o f = Ok t /\
@@ -97,14 +98,14 @@ Proof.
   destruct (roundtrip_real pf ff ff3 fi fh K L HB o f Hv) as (t & H1 & H2 & _). eauto.
 Qed.
 Theorem C05_norad_reads_spec_real : forall pf ff ff3 fi fh (K : codecs),
-  L1_glif pf ff ff3 fh -> codecs_ok K ->
+  L1_glif pf ff ff3 fi fh -> codecs_ok K ->
   forall c o (f : font (real_sig pf ff ff3 fi fh K)),
   font_valid (real_sig pf ff ff3 fi fh K) f ->
   exists t, spec_write (real_sig pf ff ff3 fi fh K) c o f = Some t /\
             exists f', load (real_sig pf ff ff3 fi fh K) t = Ok f' /\ font_equiv (real_sig pf ff ff3 fi fh K) f f'.
 Proof. exact reads_spec_real. Qed.
 Theorem C05_spec_read_spec_write_real : forall pf ff ff3 fi fh (K : codecs),
-  L1_glif pf ff ff3 fh -> codecs_ok K ->
+  L1_glif pf ff ff3 fi fh -> codecs_ok K ->
   forall c o (f : font (real_sig pf ff ff3 fi fh K)),
   font_valid (real_sig pf ff ff3 fi fh K) f ->
   exists t, spec_write (real_sig pf ff ff3 fi fh K) c o f = Some t /\
